@@ -779,7 +779,7 @@ fn verif_c07_window() {
     let mtus: Vec<usize> = if tier_thorough() { (100..=330).step_by(3).chain([65_000]).collect() } else { vec![100, 118, 150, 175, 210, 260, 330, 65_000] };
     let mut r = Report::new(
         "c07_window",
-        &format!("3 members with 0..4 keys of every status (versions 1..5), every subset of members scheduled for deletion, digest frontier per member in {{absent,(0,0),(0,2),(0,5),(3,1)}}, budgets {:?}; every included member's key-values must be exactly the sender's entries in (start, delta max], ascending, no scheduled member in delta or digest, serialized delta <= budget", mtus),
+        &format!("3 members with 0..4 keys of every status (versions 1..5), every subset of members scheduled for deletion, digest frontier per member in {{absent,(0,0),(0,2),(0,5),(3,1)}} (rotating over the members, or the same for all), budgets {:?} (every budget 100..200 when no member has key-values); every included member's key-values must be exactly the sender's entries in (start, delta max], ascending, no scheduled member in delta or digest, serialized delta <= budget", mtus),
         true,
     );
     let member_cfgs: Vec<(u64, u64, Vec<(&'static str, u64, u8)>)> = vec![
@@ -790,8 +790,14 @@ fn verif_c07_window() {
         (0, 5, vec![("k1", 5, 0), ("k2", 4, 0), ("k3", 2, 0), ("k4", 1, 0)]),
         // one value larger than every small budget, in the middle of the version order
         (0, 3, vec![("a", 1, 0), ("big", 2, 0), ("c", 3, 0)]),
+        // members that are ahead only by their max version (every tombstone collected), with
+        // different max versions: a peer that knows them at (0,5) gets a bare SetMaxVersion each
+        (4, 6, vec![]),
+        (2, 9, vec![]),
+        (5, 7, vec![]),
     ];
     let digest_cfgs: [Option<(u64, u64)>; 5] = [None, Some((0, 0)), Some((0, 2)), Some((0, 5)), Some((3, 1))];
+    let fine_mtus: Vec<usize> = (100..=200).collect();
     let mut combos = 0u64;
     for c0 in 0..member_cfgs.len() {
         for c1 in 0..member_cfgs.len() {
@@ -813,16 +819,21 @@ fn verif_c07_window() {
             for sched_mask in 0..8u8 {
                 let ids: Vec<ChitchatId> = (0..3u16).map(|i| id(i + 1)).collect();
                 let sched: HashSet<&ChitchatId> = ids.iter().enumerate().filter(|(i, _)| sched_mask & (1 << i) != 0).map(|(_, x)| x).collect();
-                for dsel in 0..digest_cfgs.len() {
+                // digest_sel < 5: the frontiers rotate over the members; >= 5: the same frontier for everybody
+                for dsel in 0..2 * digest_cfgs.len() {
                     let mut digest = Digest::default();
                     for (i, idv) in ids.iter().enumerate() {
-                        if let Some((dg, dm)) = digest_cfgs[(dsel + i) % digest_cfgs.len()] {
+                        let sel = if dsel < digest_cfgs.len() { (dsel + i) % digest_cfgs.len() } else { dsel - digest_cfgs.len() };
+                        if let Some((dg, dm)) = digest_cfgs[sel] {
                             digest.add_node(idv.clone(), Heartbeat(1), dg, dm);
                         }
                     }
-                    for &mtu in &mtus {
+                    // members without key-values: every budget from 100 to 200, so that a 9-byte
+                    // SetMaxVersion op lands on every offset from the end of the budget
+                    let fine = picks.iter().all(|p| member_cfgs[*p].2.is_empty()) && sched_mask == 0;
+                    for &mtu in if fine { &fine_mtus } else { &mtus } {
                         combos += 1;
-                        if !tier_thorough() && combos % 3 != 0 {
+                        if !tier_thorough() && !fine && combos % 3 != 0 {
                             continue;
                         }
                         let case = format!("members={:?} scheduled_mask={sched_mask} digest_sel={dsel} mtu={mtu}", picks);
@@ -885,6 +896,14 @@ fn verif_c07_window() {
                             }
                             if nd.max_version > ns.max_version {
                                 r.fail("delta-ahead-of-sender", format!("delta max {} > copy max {}", nd.max_version, ns.max_version), case.clone());
+                            }
+                        }
+                        // every member but the last one is complete: its delta ends at the sender's max version
+                        for nd in delta.node_deltas.iter().rev().skip(1) {
+                            if let Some(ns) = cs.node_states.get(&nd.chitchat_id) {
+                                if nd.max_version != ns.max_version {
+                                    r.fail("incomplete-member-before-last", format!("member {:?} is followed by another one but ends at {} (sender max {})", nd.chitchat_id, nd.max_version, ns.max_version), case.clone());
+                                }
                             }
                         }
                     }
